@@ -27,16 +27,14 @@ Proof. vm_compute. reflexivity. Qed.
 Lemma ex_limited_1 : obs (analyze_limited Generated.Consts.gen_basis cfg_ex 1 (new_state 0) start3) = ([a1], 0, 1, false).
 Proof. vm_compute. reflexivity. Qed.
 
+(* the hypotheses of cancel_truncates / cancel_deepest / cancel_no_move_fresh are satisfiable with a real cancellation *)
 Lemma cancel_nonvacuous :
-  exists basis cfg k s p sk pv v d acc,
-    analyze_cancel basis cfg k s p = (sk, (pv, v, d, acc, true)) /\ 0 < d /\ pv <> [] /\
-    exists sk' pv' v' acc' c', analyze_cancel basis cfg 5 s p = (sk', (pv', v', 0, acc', c')).
+  (exists sk pv v d acc,
+     analyze_cancel Generated.Consts.gen_basis cfg_ex 20 (new_state 0) start3 = (sk, (pv, v, d, acc, true)) /\ 0 < d /\ pv <> []) /\
+  (exists sk pv v acc,
+     analyze_cancel Generated.Consts.gen_basis cfg_ex 5 (new_state 0) start3 = (sk, (pv, v, 0, acc, true))).
 Proof.
-  exists Generated.Consts.gen_basis, cfg_ex, 20, (new_state 0), start3.
-  destruct (analyze_cancel Generated.Consts.gen_basis cfg_ex 20 (new_state 0) start3) as [sk [[[[pv v] d] acc] c]] eqn:E.
-  pose proof ex_cancel_mid as X. unfold run_analyze in X. rewrite E in X. cbn [obs] in X. inversion X; subst.
-  exists sk, [a1], 0, 1, acc. split; [reflexivity|]. split; [reflexivity|]. split; [discriminate|].
-  destruct (analyze_cancel Generated.Consts.gen_basis cfg_ex 5 (new_state 0) start3) as [sk' [[[[pv' v'] d'] acc'] c']] eqn:E5.
-  pose proof ex_cancel_early as Y. unfold run_analyze in Y. rewrite E5 in Y. cbn [obs] in Y. inversion Y; subst.
-  exists sk', [], 0, acc', true. reflexivity.
+  split.
+  - do 5 eexists. split; [vm_compute; reflexivity|]. split; [reflexivity|discriminate].
+  - do 4 eexists. vm_compute; reflexivity.
 Qed.
